@@ -426,6 +426,38 @@ for trace in ID_TRACES3:
     R.check("identity helpers == column-by-column recomputation", "identity of partial 3-row traces", {"trace": trace},
             lambda trace=trace: identity_contract(ID_SEQS, trace))
 
+def fasta_type_contract(texts, cls_name, trace):
+    """FASTA round trip of an alignment with the sequence type given: the rows come back as sequences of that type,
+    equal to the ones written -- also when a protein row consists of letters that are nucleotide codes as well
+    (MKHGASTRVDNCWY ...), which the automatic detection would take for a nucleotide sequence"""
+    cls = {"protein": seq.ProteinSequence, "nucleotide": seq.NucleotideSequence}[cls_name]
+    seqs = [cls(t) for t in texts]
+    ali = align.Alignment(seqs, np.array(trace), score=7)
+    f = fasta.FastaFile()
+    fasta.set_alignment(f, ali, [f"s{i}" for i in range(len(seqs))])
+    s_io = io.StringIO()
+    f.write(s_io)
+    with warnings.catch_warnings():
+        warnings.simplefilter("ignore")
+        back = fasta.get_alignment(fasta.FastaFile.read(io.StringIO(s_io.getvalue())), seq_type=cls)
+    if back.trace.tolist() != np.array(trace).tolist():
+        return f"trace {back.trace.tolist()}"
+    for r, (x, y) in enumerate(zip(back.sequences, seqs)):
+        if type(x) is not cls or not (x == y) or x.code.tolist() != y.code.tolist():
+            return f"row {r} comes back as {type(x).__name__} {str(x)!r} (codes {x.code.tolist()}), written {cls.__name__} {str(y)!r} (codes {y.code.tolist()})"
+    if align.get_codes(back).tolist() != align.get_codes(ali).tolist():
+        return "code matrix of the re-read alignment differs"
+    return None
+
+
+import warnings
+_FT = [(0, 0), (1, 1), (2, -1), (3, 2), (-1, 3)]
+for texts, cls_name in ((["MKHG", "ASTR"], "protein"), (["VDNC", "WYAC"], "protein"), (["MKLF", "ACGT"], "protein"), (["ACGT", "GGTA"], "protein"),
+                        (["ACGT", "GGTA"], "nucleotide"), (["ANRY", "ACGT"], "nucleotide")):
+    R.check("conversions recover trace and sequences; helpers == column-wise recomputation", "FASTA alignment with the sequence type given",
+            {"rows": texts, "seq_type": cls_name}, lambda texts=texts, cls_name=cls_name: fasta_type_contract(texts, cls_name, _FT))
+
+
 def indexing_contract(trace):
     """Alignment[columns] / Alignment[columns, rows]: the selected columns of the trace, the selected rows with THEIR
     sequences, the score kept; len() == number of columns; == compares sequences, trace and score"""
